@@ -112,6 +112,48 @@ func (e *Engine) sqlStatementsFrom(top *ssa.Function, virtual []ssa.Value, depth
 		return ok
 	}
 	fns := withClosures(top)
+	// builder factories: module functions called from here that take no builder and return one (a helper that
+	// starts a statement the caller completes).  Their bodies join the analysis and each call result continues
+	// the statement begun inside.
+	if depth < 2 {
+		seenF := map[*ssa.Function]bool{top: true}
+		for i := 0; i < len(fns); i++ {
+			eachInstr(fns[i], false, func(in ssa.Instruction) {
+				c, ok := in.(*ssa.Call)
+				if !ok || !isB(c) {
+					return
+				}
+				f := c.Common().StaticCallee()
+				if f == nil || seenF[f] || len(f.Blocks) == 0 || !e.inModule(f) {
+					return
+				}
+				for _, a := range c.Common().Args {
+					if isB(a) {
+						return
+					}
+				}
+				seenF[f] = true
+				fns = append(fns, withClosures(f)...)
+			})
+		}
+		for _, fn := range fns {
+			eachInstr(fn, false, func(in ssa.Instruction) {
+				c, ok := in.(*ssa.Call)
+				if !ok || !isB(c) {
+					return
+				}
+				f := c.Common().StaticCallee()
+				if f == nil || !seenF[f] || f == top {
+					return
+				}
+				for _, rs := range returnSites(f) {
+					if len(rs.Results) >= 1 && isB(rs.Results[0]) {
+						union(c, rs.Results[0])
+					}
+				}
+			})
+		}
+	}
 	var roots []*ssa.Call
 	for _, fn := range fns {
 		// free variables holding builders: link to the binding in the parent
